@@ -516,3 +516,62 @@ func TestFindingF24QuerySeesJSONBodyAsText(t *testing.T) {
 	require.NoError(t, it.Close())
 	require.Equal(t, []string{`{"id":d7,"n":1}`, `{"id":d8,"n":10}`, `{"id":d9,"n":100}`}, rows)
 }
+
+// F25 [C09,C15] StartDCPFeed read the backfill, and only afterwards (in a separate critical section) registered the feed for
+// live events. A write that committed and posted its event in between was in neither: the feed never saw it. The write is
+// placed in the window deterministically through the logging callback ("... ended backfill" is logged right there); it
+// runs on its own goroutine so that a StartDCPFeed that keeps the bucket locked there simply makes it wait.
+func TestFindingF25WriteWhileFeedStartsIsDelivered(t *testing.T) {
+	_, c := findingBucket(t)
+	_, err := c.AddRaw("before", 0, []byte(`{"v":1}`))
+	require.NoError(t, err)
+
+	oldCallback, oldLevel := LoggingCallback, GetLogLevel()
+	defer func() { LoggingCallback = oldCallback; SetLogLevel(oldLevel) }()
+	var once sync.Once
+	written := make(chan error, 1)
+	LoggingCallback = func(level LogLevel, f string, args ...any) {
+		if strings.HasSuffix(f, "ended backfill") {
+			once.Do(func() {
+				done := make(chan struct{})
+				go func() {
+					_, err := c.AddRaw("during", 0, []byte(`{"v":2}`))
+					written <- err
+					close(done)
+				}()
+				select { // let the write finish if it can
+				case <-done:
+				case <-time.After(300 * time.Millisecond):
+				}
+			})
+		}
+	}
+	SetLogLevel(LevelDebug)
+
+	events := make(chan sgbucket.FeedEvent, 100)
+	term := make(chan bool)
+	defer close(term)
+	args := sgbucket.FeedArguments{ID: "f25", Backfill: 0, Terminator: term}
+	require.NoError(t, c.StartDCPFeed(context.Background(), args, func(e sgbucket.FeedEvent) bool { events <- e; return true }, nil))
+	SetLogLevel(oldLevel)
+	LoggingCallback = oldCallback
+	select {
+	case err := <-written:
+		require.NoError(t, err)
+	case <-time.After(5 * time.Second):
+		t.Fatal("the write made while the feed was starting never returned")
+	}
+	_, err = c.AddRaw("after", 0, []byte(`{"v":3}`))
+	require.NoError(t, err)
+
+	seen := map[string]bool{}
+	for !seen["after"] {
+		e := findingNext(t, events)
+		require.NotNil(t, e, "feed stalled; saw %v", seen)
+		if e.Opcode == sgbucket.FeedOpMutation {
+			seen[string(e.Key)] = true
+		}
+	}
+	require.True(t, seen["before"], "backfill must deliver the document written before the feed started")
+	require.True(t, seen["during"], "a write that commits while the feed is starting must be delivered by backfill or live")
+}
